@@ -51,6 +51,7 @@ func runRapid(t *testing.T, p *prop, s *stats, tag string, replayOf string) {
 			path := replayOf
 			if replayOf == "" {
 				path = writeReplayH(p, s, c, fails, tag, hist)
+				stopIfStuck(s)
 			} else {
 				s.mu.Lock()
 				s.Violations = append(s.Violations, violation{Replay: replayOf, Fails: fails})
@@ -167,6 +168,7 @@ func TestProp(t *testing.T) {
 				nviol++
 				path := writeReplay(p, s, c, fails, fmt.Sprintf("%s-%d", tag, nviol))
 				t.Errorf("property %s violated in sweep (%s): %s [replay %s]", id, fails[0].Kind, fails[0].Msg, path)
+				stopIfStuck(s)
 			}
 		})
 	case "replay":
@@ -188,6 +190,7 @@ func TestProp(t *testing.T) {
 				s.mu.Lock()
 				s.Violations = append(s.Violations, violation{Replay: os.Getenv("VERIF_REPLAY"), Fails: fails})
 				s.mu.Unlock()
+				stopIfStuck(s)
 				t.Fatalf("property %s violated on replay (%s): %s", id, fails[0].Kind, fails[0].Msg)
 			}
 		}
